@@ -1,27 +1,15 @@
-"""Per-property configuration: harness units, tier budgets, evidence level."""
-
-ASSUME_COMMON = [
-    "reference MurmurHash3/XXHash64 in harness/vf/ref_hash.hpp written from the published definitions",
-    "clang 14 ASan/UBSan(-alignment)/LSan report every memory error they are documented to catch",
-    "rapidcheck generators are the only source of randomness; a run is a function of the tree and VERIF_SEED",
-]
-
-PROPS = {
-    "C01": {
-        "level": "exploration",
-        "units": [
-            {"harness": "c01_theta_update",
-             "quick": {"cases": 1600, "maxsize": 100},
-             "thorough": {"cases": 60000, "maxsize": 100}},
-        ],
-        "require_labels": {"rebuild": 0.05, "p-screened": 0.05},
-        "assumptions": ASSUME_COMMON,
-        "manifest": {
-            "text": "Generated histories of typed updates/trim/reset/compact/copy over generated builder settings; after every operation the full retained set, theta, emptiness, estimate and compact forms are compared with an independent reference-hash model (set equality, no tolerances). Evidence of absence within the explored bounds only.",
-            "note": "Trusted: the reference MurmurHash3 and canonical-form rules in harness/vf (cross-checked by C10), clang sanitizers, rapidcheck. lg_k>13 is sampled sparsely (sub 'large'), X1 resize limited to lg_k<=20.",
-            "technique": "property-based testing (rapidcheck) with a reference-hash model oracle, stateful op histories",
-        },
-    },
-}
-
+"""Per-property configuration is one JSON file per property under /verif/props/<ID>.json:
+  {"level": "exploration"|"fault_enumeration", "units": [{"harness": <name>, "variant": "asan"|"fast"|"fuzz",
+    "tiers": ["quick","thorough"], "quick": {"cases": N, "maxsize": S, "workers": W, "timeout": T, "env": {...}},
+    "thorough": {...}, "env": {...}}], "require_labels": {label: min_fraction}, "assumptions": [...],
+   "manifest": {"text": ..., "note": ..., "technique": ..., "design_ref": ...}}
+"""
+import glob, json, os
+ROOT = os.path.dirname(os.path.dirname(os.path.abspath(__file__)))
+PROPS = {}
+for f in sorted(glob.glob(os.path.join(ROOT, "props", "C*.json"))):
+    PROPS[os.path.basename(f)[:-5]] = json.load(open(f))
 NOT_APPLICABLE = {}
+na = os.path.join(ROOT, "props", "not_applicable.json")
+if os.path.exists(na):
+    NOT_APPLICABLE = json.load(open(na))
